@@ -3,6 +3,7 @@ C17 — a failing track cannot take the rest of the performance down.
 -/
 import IsobarV.Sched.Fields
 import IsobarV.Props.C02
+import IsobarV.Props.C07
 
 namespace IsobarV.C17
 open IsobarV.Sched
@@ -100,5 +101,36 @@ theorem callback_stop_ends_track (tl : TL) (t : Track) (d : Nat) (ops : List Op)
     (performEvent tl t d true (.action ops .stop)).stopped = true ∧
     (performEvent tl t d true (.action ops .stop)).raised = false := by
   simp [performEvent, hact, hok]
+
+/-- **Containment.**  Tolerant mode, tracks that do not call the timeline API: with a failing track
+    `bad` anywhere in the scheduling order, (1) the event phase is the other tracks' phase with
+    `bad`'s own contribution (its calls up to the fault, then the release of its notes) spliced in at
+    its place, (2) the tracks left in the timeline are exactly those left by the run WITHOUT `bad`,
+    (3) the run without `bad` is the concatenation of the two halves — so every other track's output
+    and state are identical to a run without the failing track, for every position of `bad`, every
+    number of healthy tracks, every fault site and event index. -/
+theorem fault_isolated (W : World) (q : Nat) (ts1 ts2 : List Track) (bad : Track)
+    (hdom : ∀ t ∈ ts1 ++ bad :: ts2, (soloTick W q t).out ≠ .diverged)
+    (hraise : (soloTick W q bad).out = .raised) :
+    (soloPhase W q true (ts1 ++ bad :: ts2)).calls =
+      (soloPhase W q true ts1).calls ++ C07.contribution W q bad ++ (soloPhase W q true ts2).calls ∧
+    (soloPhase W q true (ts1 ++ bad :: ts2)).tracks = (soloPhase W q true (ts1 ++ ts2)).tracks ∧
+    (soloPhase W q true (ts1 ++ ts2)).calls = (soloPhase W q true ts1).calls ++ (soloPhase W q true ts2).calls ∧
+    (soloPhase W q true (ts1 ++ bad :: ts2)).res = .ok := by
+  have h1 : ∀ t ∈ ts1, (soloTick W q t).out ≠ .diverged := fun t ht => hdom t (by simp [ht])
+  have h2 : ∀ t ∈ ts2, (soloTick W q t).out ≠ .diverged := fun t ht => hdom t (by simp [ht])
+  have h12 : ∀ t ∈ ts1 ++ ts2, (soloTick W q t).out ≠ .diverged := by
+    intro t ht; simp only [List.mem_append] at ht; rcases ht with ht | ht
+    · exact h1 t ht
+    · exact h2 t ht
+  obtain ⟨a1, a2, a3⟩ := C07.event_phase_is_merge W q true _ hdom (Or.inl rfl)
+  obtain ⟨b1, b2, _⟩ := C07.event_phase_is_merge W q true ts1 h1 (Or.inl rfl)
+  obtain ⟨c1, c2, _⟩ := C07.event_phase_is_merge W q true ts2 h2 (Or.inl rfl)
+  obtain ⟨d1, d2, _⟩ := C07.event_phase_is_merge W q true (ts1 ++ ts2) h12 (Or.inl rfl)
+  have hsurv : C07.survivor W q bad = none := by simp [C07.survivor, hraise]
+  refine ⟨?_, ?_, ?_, a3⟩
+  · rw [a1, b1, c1]; simp
+  · rw [a2, d2]; simp [List.filterMap_append, hsurv]
+  · rw [d1, b1, c1]; simp
 
 end IsobarV.C17
